@@ -248,6 +248,7 @@ type request struct {
 	writes       bool
 	forward      *request // the handler forwards this request through the same Mux first (Store.W as the writer)
 	swap         string   // "", "W", "P", "WP": the handler replaces Store.W / Store.P by objects of its own
+	clientTag    string   // the request carries request-id / tracing headers with this value
 	firstReaders int      // that many goroutines of the request ask for its ID at once, before anybody else does
 }
 
@@ -282,6 +283,12 @@ func (t *table) serve(rq request) (rec *record, escaped any) {
 	}
 	if rq.firstReaders > 0 {
 		req.Header.Set("X-First-ID-Readers", strconv.Itoa(rq.firstReaders))
+	}
+	if rq.clientTag != "" {
+		// what a client, a proxy or a tracing library puts on a request: the Store's ID is the Mux's own all the same
+		for _, h := range []string{"X-Request-Id", "X-Request-ID", "Request-Id", "X-Correlation-Id", "X-Trace-Id", "Traceparent"} {
+			req.Header.Set(h, rq.clientTag)
+		}
 	}
 	if rq.forward != nil {
 		req.Header.Set("X-Forward-Method", rq.forward.method)
@@ -499,6 +506,10 @@ func runMachine(t *rapid.T, concurrent bool) {
 		if rapid.IntRange(0, 5).Draw(t, "swaps") == 0 {
 			rq.swap = rapid.SampledFrom([]string{"W", "P", "WP"}).Draw(t, "swap")
 			ev.Label("request:handler_replaces_Store_W_or_P")
+		}
+		if rapid.IntRange(0, 4).Draw(t, "tagged") == 0 {
+			rq.clientTag = rapid.SampledFrom([]string{"client-retry-1", "client-retry-1", "00-4bf92f3577b34da6a3ce929d0e0e4736-00f067aa0ba902b7-01", "x"}).Draw(t, "clientTag")
+			ev.Label("request:carries_request-id_and_tracing_headers")
 		}
 		if rapid.IntRange(0, 5).Draw(t, "idReaders") == 0 {
 			rq.firstReaders = rapid.IntRange(2, 4).Draw(t, "firstReaders")
